@@ -464,7 +464,9 @@ fn roundtrip(d: &DocSpec, ctx: &mut Ctx) {
         _ => false,
     };
     if embeds_font {
-        let pages: &[usize] = if d.two_fonts() { &[0, 1] } else { &[0] };
+        // the second font is embedded (512 character mode) only if a cell uses it: a document too small to hold a cell of page 1 keeps one font
+        let uses_page1 = (0..src.get_height()).any(|y| (0..src.get_width()).any(|x| src.get_char((x, y)).get_font_page() == 1));
+        let pages: &[usize] = if d.two_fonts() && uses_page1 { &[0, 1] } else { &[0] };
         for &p in pages {
             let a = src.get_font(p).map(font_glyph_bytes);
             let b = got.get_font(p).map(font_glyph_bytes);
@@ -530,7 +532,8 @@ fn roundtrip(d: &DocSpec, ctx: &mut Ctx) {
             }
             if d.fmt == Fmt::Xb {
                 let f = dec.flags;
-                if (f & 8 != 0) != d.ice || (f & 4 != 0) != d.compress || (f & 16 != 0) != d.two_fonts() {
+                let uses_page1 = (0..src.get_height()).any(|y| (0..src.get_width()).any(|x| src.get_char((x, y)).get_font_page() == 1));
+                if (f & 8 != 0) != d.ice || (f & 4 != 0) != d.compress || (f & 16 != 0) != (d.two_fonts() && uses_page1) {
                     ctx.violation("diff:xb:spec-decoder:flags", json!({"doc": d.json(), "flags": f}));
                 }
             }
@@ -775,6 +778,8 @@ fn resave(fmt: Fmt, desc: &str, bytes: &[u8], ctx: &mut Ctx) {
 enum Job {
     Doc(DocSpec),
     C06(DocSpec),
+    /// a batch of enumerated rows, generated when the job runs (36 M rows do not fit into every worker's memory)
+    C06Rows { width: u32, base: u64, n: u64, small: bool, ice: bool },
     Resave(Fmt, String, Vec<u8>),
 }
 
@@ -1028,7 +1033,7 @@ fn build_c06(tier: &str) -> (Vec<Job>, Value) {
         while base < total {
             let n = per_doc.min(total - base);
             for ice in [false] {
-                jobs.push(Job::C06(c06_doc(c6_rows_batch(w, base, n, false), w as i32, ice)));
+                jobs.push(Job::C06Rows { width: w, base, n, small: false, ice });
             }
             base += n;
         }
@@ -1041,7 +1046,7 @@ fn build_c06(tier: &str) -> (Vec<Job>, Value) {
         let mut base = 0;
         while base < total {
             let n = per_doc.min(total - base);
-            jobs.push(Job::C06(c06_doc(c6_rows_batch(w, base, n, true), w as i32, true)));
+            jobs.push(Job::C06Rows { width: w, base, n, small: true, ice: true });
             base += n;
         }
     }
@@ -1085,6 +1090,7 @@ impl Engine for BinFmt {
                 ctx.count("nontrivial", 1);
             }
             Job::C06(d) => run_c06_doc(d, ctx),
+            Job::C06Rows { width, base, n, small, ice } => run_c06_doc(&c06_doc(c6_rows_batch(*width, *base, *n, *small), *width as i32, *ice), ctx),
             Job::Resave(f, desc, bytes) => resave(*f, desc, bytes, ctx),
         }
     }
@@ -1092,6 +1098,7 @@ impl Engine for BinFmt {
         match &self.jobs[idx as usize] {
             Job::Doc(d) => json!({"engine": "binfmt", "idx": idx, "doc": d.json(), "key": format!("binfmt:{}", d.fmt.ext())}),
             Job::C06(d) => json!({"engine": "xbin-compression", "idx": idx, "doc": d.json(), "key": "xbin-compression"}),
+            Job::C06Rows { width, base, n, small, ice } => json!({"engine": "xbin-compression", "idx": idx, "rows": format!("rows {base}..{} of width {width} over the {} value alphabet", base + n, if *small { 8 } else { 18 }), "ice": ice, "key": "xbin-compression"}),
             Job::Resave(f, desc, bytes) => json!({"engine": "resave", "idx": idx, "format": f.ext(), "file": desc, "bytes": vharness::bytes_to_json(&bytes[..bytes.len().min(6000)]), "len": bytes.len(), "key": format!("resave:{}", f.ext())}),
         }
     }
@@ -1108,7 +1115,7 @@ impl Engine for BinFmt {
         for j in &self.jobs {
             match j {
                 Job::Doc(_) => docs += 1,
-                Job::C06(_) => c6 += 1,
+                Job::C06(_) | Job::C06Rows { .. } => c6 += 1,
                 Job::Resave(..) => rs += 1,
             }
         }
